@@ -5,10 +5,12 @@ A history is a list of ops (JSON lists):
   ["act", A]                                   the program itself, outside any activation
   ["newset", [ids]]                            AgentSet([agents with those ids still alive], random=model.random)
   ["collect"]                                  gc.collect()
-  ["activate", kind, form, sref, script, args, kwargs]
-  ["group", kind, outer, byform, sref, m, script, args, kwargs]
+  ["activate", kind, form, sref, script, args, kwargs, script2?]
+  ["group", kind, outer, byform, sref, m, script, args, kwargs, script2?]
 with  A      = ["nop"] | ["rmself", keep] | ["rm", id, keep] | ["create", cls, n, keep] | ["drop", id] | ["add", id]
-      kind   = "do" | "shuffle_do" | "map";  form = "name" | "callable"
+               | ["raise"]                      the callback raises (the activation is aborted)
+               | ["nested", kind, sref]         the callback itself calls sref.do/shuffle_do/map; agents called there run script2
+      kind   = "do" | "shuffle_do" | "map" | "shuffle_then_do" (= set.shuffle().do(...));  form = "name" | "callable"
       sref   = ["all"] | ["type", c] | ["user", k]
       script = [[id, [A, ...]], ...]           what agent `id` does on its turn
 The program's references (`ext`) are real references kept in a list by the driver; agents are reached through a
@@ -30,7 +32,9 @@ RULE = ("histories = one Model; top-level creation/removal/reference keeping of 
         "AgentSets in arbitrary order, then 1-4 activations (do/shuffle_do/map by method name or callable, on "
         "model.agents, agents_by_type[c] or a program-made set, or through groupby(...).do/map) whose per-agent scripts "
         "do nothing / remove self / remove an earlier or later or dead agent (reference kept or not) / create agents / "
-        "drop or take references; ALL one-act scripts over sets of size <= 3 (4 thorough, and 4 in the enumerator) are run first; "
+        "drop or take references / raise / start a nested do, shuffle_do or map on any set (whose callbacks run a second script "
+        "and may raise too); 45% of the activations stay inside the statement's own quantifier (no raise, no nesting); "
+        "set.shuffle().do(...) is driven beside shuffle_do; ALL one-act scripts over sets of size <= 3 (4 thorough, and 4 in the enumerator) are run first; "
         "non-trivial = an activation that called >= 2 agents; distinct = SHA1 of the history")
 TRUSTED_BASE = [
     "Coq 8.16.1 kernel (coqc); vm_compute used for the non-vacuity examples and for evaluating the model in the correspondence",
@@ -44,20 +48,42 @@ TRUSTED_BASE = [
     "Uint63 primitive hash only in scratch Cases files, never under a theorem",
 ]
 ASSUMPTIONS = [
-    "callbacks do not raise, do not start a nested activation and do not add/discard members of model-owned sets directly",
+    "callbacks do not add/discard members of model-owned sets directly; nesting depth of activations is at most 2; "
+    "an exception raised by a callback is not caught inside callbacks (it leaves every running activation)",
     "no reference cycles through agents (a cycle counts as 'the program still holds a reference')",
     "agents removed from the model while the program keeps a reference MAY be called (the statement allows it); the model says they are",
 ]
+# the source functions Model/Activation.v transcribes (finer escalation than the per-class default)
+SOURCE_FUNCS = [("mesa/agent.py", "AgentSet.do"), ("mesa/agent.py", "AgentSet.shuffle_do"), ("mesa/agent.py", "AgentSet.map"),
+                ("mesa/agent.py", "AgentSet.shuffle"), ("mesa/agent.py", "AgentSet.groupby"), ("mesa/agent.py", "AgentSet.__init__"),
+                ("mesa/agent.py", "AgentSet.add"), ("mesa/agent.py", "AgentSet.remove"),
+                ("mesa/agent.py", "GroupBy.do"), ("mesa/agent.py", "GroupBy.map"),
+                ("mesa/agent.py", "Agent.__init__"), ("mesa/agent.py", "Agent.remove"),
+                ("mesa/model.py", "Model.register_agent"), ("mesa/model.py", "Model.deregister_agent")]
 NCLS = 3
 MAXCREATE = 3
 KINDS = ["do", "shuffle_do", "map"]
 
 
 # ------------------------------------------------------------------ generation
-def _rand_act(rng, ids_hint, self_id=None, order=None):
-    """one act; ids_hint = ids that probably exist"""
+def _rand_sref(rng, nuser=2):
+    r = rng.random()
+    if r < 0.5:
+        return ["all"]
+    if r < 0.75:
+        return ["type", rng.randrange(NCLS)]
+    return ["user", rng.randrange(max(1, nuser))]
+
+
+def _rand_act(rng, ids_hint, self_id=None, order=None, level=None):
+    """one act; ids_hint = ids that probably exist; level 1 = callback of the op's activation (may nest / raise),
+    level 2 = callback of a nested activation (may raise)"""
     r = rng.random()
     hi = max(ids_hint) if ids_hint else 1
+    if level == 1 and rng.random() < 0.10:
+        return ["nested", rng.choice(KINDS), _rand_sref(rng)]
+    if level in (1, 2) and rng.random() < (0.05 if level == 1 else 0.08):
+        return ["raise"]
     if r < 0.22:
         return ["nop"]
     if r < 0.40:
@@ -81,11 +107,11 @@ def _rand_act(rng, ids_hint, self_id=None, order=None):
     return ["add", rng.randint(1, hi + 1)]
 
 
-def _rand_script(rng, order, ids_hint, density):
+def _rand_script(rng, order, ids_hint, density, level=None):
     sc = []
     for a in order:
         if rng.random() < density:
-            sc.append([a, [_rand_act(rng, ids_hint, a, order) for _ in range(rng.choice([1, 1, 1, 2, 3]))]])
+            sc.append([a, [_rand_act(rng, ids_hint, a, order, level) for _ in range(rng.choice([1, 1, 1, 2, 3]))]])
     return sc
 
 
@@ -137,17 +163,23 @@ def _rand_case(rng, big=False):
             sref, order = ["all"], list(live)
         hint = list(range(1, nid + 1)) or [1]
         density = rng.choice([0.0, 0.3, 0.6, 1.0])
-        script = _rand_script(rng, order or hint, hint, density)
+        plain = rng.random() < 0.45          # the statement's own quantifier: no raising, no nesting
+        script = _rand_script(rng, order or hint, hint, density, None if plain else 1)
+        script2 = []
+        if any(a[0] == "nested" for _, acts in script for a in acts):
+            script2 = _rand_script(rng, hint, hint, rng.choice([0.0, 0.3, 0.6]), 2)
         args = [rng.randint(0, 9) for _ in range(rng.choice([0, 0, 1, 2]))]
         kwargs = [rng.randint(0, 9) for _ in range(rng.choice([0, 0, 1, 2]))]
         kind = rng.choice(KINDS)
         if rng.random() < 0.2:
             ops.append(["group", kind, rng.choice(["do", "map", "do-callable", "map-callable"]), rng.choice(["attr", "callable"]), sref,
-                        rng.choice([1, 2, 2, 3]), script, args, kwargs])
+                        rng.choice([1, 2, 2, 3]), script, args, kwargs, script2])
         else:
-            ops.append(["activate", kind, rng.choice(["name", "callable"]), sref, script, args, kwargs])
+            if rng.random() < 0.12:
+                kind = "shuffle_then_do"
+            ops.append(["activate", kind, rng.choice(["name", "callable"]), sref, script, args, kwargs, script2])
         # rough update of the shadow: count creations, forget removals (ids stay plausible targets)
-        for _, acts in script:
+        for _, acts in script + script2:
             for a in acts:
                 if a[0] == "create":
                     nid += a[2]
@@ -160,7 +192,7 @@ def _rand_case(rng, big=False):
 
 def _one_act_options(n, i):
     """acts agent number i (1-based id) of a set of size n may perform in the exhaustive sweep"""
-    opts = [["nop"], ["rmself", False], ["rmself", True], ["create", 0, 1, False]]
+    opts = [["nop"], ["rmself", False], ["rmself", True], ["create", 0, 1, False], ["raise"]]
     for j in range(1, n + 1):
         if j != i:
             opts.append(["rm", j, False])
@@ -171,6 +203,24 @@ def _one_act_options(n, i):
 def _enum_scripts(n):
     for combo in itertools.product(*[_one_act_options(n, i) for i in range(1, n + 1)]):
         yield [[i + 1, [a]] for i, a in enumerate(combo) if a != ["nop"]]
+
+
+def _nested_sweep():
+    """3 agents; agent 1 or 2 starts a nested activation on model.agents / its class set / a reversed program set;
+    the nested callbacks do one act each (incl. raise)"""
+    setup = [["act", ["create", i % 2, 1, False]] for i in range(3)] + [["newset", [3, 2, 1]]]
+    inner_opts = [["nop"], ["rmself", False], ["rm", 3, False], ["rm", 1, True], ["create", 1, 1, False], ["raise"]]
+    j = 0
+    for who in (1, 2):
+        for sref in (["all"], ["type", 0], ["user", 0]):
+            for ik in KINDS:
+                for a1 in inner_opts:
+                    for a3 in inner_opts:
+                        for extra in ([], [["rm", 3, False]], [["raise"]]):
+                            j += 1
+                            sc = [[who, extra[:1] * (j % 2) + [["nested", ik, sref]] + extra[:1] * ((j + 1) % 2)]]
+                            sc2 = [[1, [a1]], [3, [a3]]]
+                            yield {"ops": setup + [["activate", KINDS[j % 3], "name" if j % 2 else "callable", [["all"], ["user", 0]][j % 2], sc, [], [], sc2]]}
 
 
 def _exhaustive(nmax, kinds, user_orders):
@@ -190,6 +240,8 @@ def gen_cases(rng, tier):
     cases = []
     # every one-act script over sets of size <= 2 (3 thorough), all kinds
     cases += list(_exhaustive(3 if tier == "quick" else 4, KINDS, True))
+    nest = list(_nested_sweep())
+    cases += nest if tier != "quick" else nest[::3]
     n = 1500 if tier == "quick" else 15000
     for i in range(n):
         cases.append(_rand_case(rng, big=(i % 5 == 0)))
@@ -257,6 +309,19 @@ def _env():
     return _ENV
 
 
+class _Boom(Exception):
+    """what a scripted callback raises"""
+
+
+def _norm(op):
+    """case ops with the optional trailing inner script made explicit"""
+    if op[0] == "activate" and len(op) < 8:
+        return list(op) + [[]]
+    if op[0] == "group" and len(op) < 10:
+        return list(op) + [[]]
+    return op
+
+
 class _Run:
     def __init__(self, env):
         import weakref
@@ -268,16 +333,22 @@ class _Run:
         self.wv = weakref.WeakValueDictionary()
         self.ext = []            # the program's references (real ones)
         self.user_sets = []
-        self.events = []         # ("call"|"rm"|"create", uid)
+        self.events = []         # ("call"|"rm"|"create"|"raise", uid)
         self.removed_at = {}     # uid -> event index of its (first, effective) removal from the model
         self.created_at = {}
         self.registered = set()  # shadow: created and not yet removed through remove()
         self.script = {}
-        self.calls = []          # (uid, event index, args, kwargs, held_by_program)
-        self.token = None
+        self.script2 = {}        # what agents called by a nested activation do
+        self.depth = 0           # 0 = program, 1 = inside a callback of the op's activation, 2 = inside a nested one
+        self.calls = []          # (uid, event index, args, kwargs, held_by_program) of the activation in progress
+        self.nlog = []           # observation of nested activations
+        self.nested_perms = {}   # (agent id, act index) -> recorded permutation of a nested shuffle_do
+        self.failures = []
+        self.opi = 0
+        self.active = []         # ids of the agents whose callbacks are running (outermost first)
 
     # --- what a callback / the program can do
-    def exec_act(self, me, a):
+    def exec_act(self, me, a, where=None):
         k = a[0]
         if k == "nop":
             return
@@ -319,17 +390,79 @@ class _Run:
             if t is not None:
                 self.ext.append(t)
             del t
+        elif k == "raise":
+            if me is not None:
+                self.events.append(("raise", me.unique_id))
+                raise _Boom()
+        elif k == "nested":
+            if self.depth == 1:
+                self.nested(a[1], a[2], where)
         else:
             raise ValueError(k)
 
     def call(self, agent, args, kwargs):
         uid = agent.unique_id
-        held = any(o is agent for o in self.ext)
+        # a reference is held by the program's own list or by a callback of this very agent that is still running
+        held = any(o is agent for o in self.ext) or uid in self.active
         self.calls.append((uid, len(self.events), args, kwargs, held))
         self.events.append(("call", uid))
-        for a in self.script.get(uid, ()):
-            self.exec_act(agent, a)
+        sc = self.script if self.depth == 0 else self.script2
+        self.depth += 1
+        self.active.append(uid)
+        try:
+            for j, a in enumerate(sc.get(uid, ())):
+                self.exec_act(agent, a, (uid, j))
+        finally:
+            self.depth -= 1
+            self.active.pop()
         return 2 * uid + 1
+
+    def nested(self, akind, sref, where):
+        """a callback calls do / shuffle_do / map on a set itself; the agents called there run script2"""
+        if akind not in KINDS:
+            return
+        s = self.resolve(sref)
+        if s is None:
+            return
+        ctx = self.env["ctx"]
+        snap = self.ids(s)
+        rnd = self.model.random
+        expected = snap
+        if akind == "shuffle_do":
+            saved = rnd.getstate()
+            outer_rec, ctx["rec"] = ctx.get("rec"), None
+            expected = self.ids(s.shuffle())
+            ctx["rec"] = outer_rec
+            rnd.setstate(saved)
+        outer_calls, self.calls = self.calls, []
+        outer_rec, ctx["rec"] = ctx.get("rec"), []
+        ev0 = len(self.events)
+        raised = False
+        form = (where[0] + where[1]) % 2
+        target = "act" if form else (lambda agent, *a, **k: self.call(agent, a, k))
+        try:
+            res = getattr(s, akind)(target, tok=None)
+            del res
+        except _Boom:
+            raised = True
+        rec, calls = ctx["rec"], self.calls
+        ctx["rec"], self.calls = outer_rec, outer_calls
+        log = [c[0] for c in calls]
+        site = f"nested-{akind}"
+        perm = expected
+        if akind == "shuffle_do":
+            if len(rec) == 1 and rec[0][0] == snap:
+                perm = rec[0][1]
+            if perm != expected or len(rec) != 1:
+                self.failures.append({"key": f"C04/{site}/order", "op": self.opi,
+                                      "what": f"nested shuffle_do over {snap} recorded the shuffles {rec}; shuffle() from the same generator state gives {expected}"})
+        elif rec:
+            self.failures.append({"key": f"C04/{site}/order", "op": self.opi, "what": f"{site} consumed the generator: {rec}"})
+        _check_activation(self, site, snap, expected, ev0, calls, self.failures, self.opi, raised=raised)
+        self.nested_perms[where] = perm
+        self.nlog += [-35] + log
+        if raised:
+            raise _Boom()
 
     # --- observation
     def resolve(self, sref):
@@ -356,16 +489,30 @@ class _Run:
             out += [-22, k] + self.ids(s)
         return out
 
+    def by_type_failures(self, opi):
+        """agents_by_type[c] = the registry filtered by exact class c, in order; every class with a registered agent is a key"""
+        out = []
+        regs = list(self.model._agents)
+        for c, cls in enumerate(self.env["classes"]):
+            want = [a.unique_id for a in regs if type(a) is cls]
+            s = self.model.agents_by_type.get(cls)
+            got = None if s is None else self.ids(s)
+            if (got is None and want) or (got is not None and got != want):
+                out.append({"key": "C04/agents_by_type/not-the-filtered-registry", "op": opi,
+                            "what": f"agents_by_type[class {c}] is {got}; the registered agents of exactly that class are {want}"})
+        del regs
+        return out
+
 
 def _subseq(small, big):
     it = iter(big)
     return all(any(x == y for y in it) for x in small)
 
 
-def _check_activation(run, site, snap, expected_order, ev0, calls, failures, opi, ordered=True):
+def _check_activation(run, site, snap, expected_order, ev0, calls, failures, opi, ordered=True, raised=False):
     """the property statement over what the implementation did during one activation.
     snap: ids of the members when the call started; expected_order: the order in which they are to be visited;
-    calls: [(uid, time, args, kwargs, held)]"""
+    calls: [(uid, time, args, kwargs, held)]; raised: a callback raised (the activation was aborted there)"""
     log = [c[0] for c in calls]
     snapset = set(snap)
     tcall = {}
@@ -384,13 +531,26 @@ def _check_activation(run, site, snap, expected_order, ev0, calls, failures, opi
                                  "what": f"agent {uid} was not a member when {site} started but was called; calls: {log}; members: {snap}"})
     inlog = [u for u in log if u in snapset]
     if ordered and not _subseq(inlog, expected_order):
-        what = "set order" if site.endswith("do") and "shuffle" not in site or "map" in site else "the order shuffle() produces from the same generator state"
+        what = "the order shuffle() produces from the same generator state" if "shuffle" in site else "set order"
         failures.append({"key": f"C04/{site}/order", "op": opi,
                          "what": f"{site} called agents in the order {log}; required: {what} = {expected_order} (minus agents gone before their turn)"})
         ordered = False   # turns cannot be placed on the required order any more: judge skipped members by the whole call
-    # every member not removed from its model before its turn is called
     end = len(run.events)
     pos = {u: i for i, u in enumerate(expected_order)}
+    stop = None
+    t_raise = next((t for t in range(ev0, end) if run.events[t][0] == "raise"), None)
+    if t_raise is not None:
+        # the exception leaves the loop during the call in progress: nobody is called afterwards,
+        # members after that agent (in visiting order) are not visited
+        late = [c[0] for c in calls if c[1] > t_raise]
+        if late:
+            failures.append({"key": f"C04/{site}/called-after-exception", "op": opi,
+                             "what": f"a callback raised (event {t_raise}) and {site} went on to call {late}; calls: {log}"})
+        before = [c[0] for c in calls if c[1] < t_raise]
+        stop = pos.get(before[-1], -1) if (ordered and before) else -1
+    elif raised:
+        stop = -1
+    # every member not removed from its model before its turn is called
     for a in snap:
         if a in tcall:
             t = tcall[a]
@@ -400,6 +560,8 @@ def _check_activation(run, site, snap, expected_order, ev0, calls, failures, opi
                 if not held:
                     failures.append({"key": f"C04/{site}/called-removed-agent", "op": opi,
                                      "what": f"agent {a} had been removed from its model (event {rem}) and the program held no reference to it, yet {site} called it (event {t}); calls: {log}"})
+            continue
+        if stop is not None and (stop == -1 or pos.get(a, 1 << 30) > stop):
             continue
         # its turn ends at the latest when the next called agent after it (in visiting order) is called
         if ordered and a in pos:
@@ -434,19 +596,43 @@ def _args_ok(calls, args, kwargs, token):
     return None
 
 
+def _script_raises(script, log):
+    """does the script of an agent that was called contain a raise (at top level of its turn)?"""
+    d = {int(i): acts for i, acts in script}
+    return any(any(a[0] == "raise" for a in d.get(u, ())) for u in log)
+
+
+def _model_script(script, perms):
+    """the script with the recorded permutations of nested shuffles filled in"""
+    d = {}
+    for i, acts in script:
+        d[int(i)] = acts
+    out = []
+    for i, acts in d.items():
+        out.append([i, [(["nested", a[1], a[2], perms.get((i, j), [])] if a[0] == "nested" else a) for j, a in enumerate(acts)]])
+    return out
+
+
 def _run_impl(env, case):
     import gc
 
     run = _Run(env)
     ctx = env["ctx"]
     ctx["cur"] = run
-    obs, failures, ops_for_model = [], [], []
+    obs, failures, ops_for_model = [], run.failures, []
     for opi, op in enumerate(case["ops"]):
+        op = _norm(op)
         kind = op[0]
         mop = op
+        run.opi = opi
+        run.nlog = []
+        run.nested_perms = {}
+        run.depth = 0
         try:
             if kind == "act":
+                run.depth = 2       # the program: nested / raise mean nothing here
                 run.exec_act(None, op[1])
+                run.depth = 0
                 obs.append(run.view())
             elif kind == "newset":
                 from mesa.agent import AgentSet
@@ -459,58 +645,75 @@ def _run_impl(env, case):
                 gc.collect()
                 obs.append(run.view())
             elif kind == "activate":
-                _, akind, form, sref, script, args, kwargs = op
+                _, akind, form, sref, script, args, kwargs, script2 = op[:8]
                 s = run.resolve(sref)
-                if s is None:
+                if s is None or akind not in KINDS + ["shuffle_then_do"]:
                     obs.append([-2])
                 else:
                     snap = run.ids(s)
                     rnd = run.model.random
                     expected = snap
-                    if akind == "shuffle_do":
+                    shuffled = akind in ("shuffle_do", "shuffle_then_do")
+                    if shuffled:
                         saved = rnd.getstate()
                         expected = run.ids(s.shuffle())       # what shuffle() produces from this generator state
                         rnd.setstate(saved)
                     run.script = {int(i): acts for i, acts in script}
+                    run.script2 = {int(i): acts for i, acts in script2}
                     run.calls = []
                     ev0 = len(run.events)
                     token = object()
                     kw = {f"k{j}": v for j, v in enumerate(kwargs)}
                     rec = ctx["rec"] = []
                     target = "act" if form == "name" else (lambda agent, *a, **k: run.call(agent, a, k))
-                    res = getattr(s, akind)(target, *args, tok=token, **kw)
+                    raised = False
+                    res = None
+                    try:
+                        if akind == "shuffle_then_do":
+                            res = s.shuffle().do(target, *args, tok=token, **kw)
+                        else:
+                            res = getattr(s, akind)(target, *args, tok=token, **kw)
+                    except _Boom:
+                        raised = True
                     ctx["rec"] = None
                     calls = run.calls
                     run.script = {}
+                    run.script2 = {}
                     log = [c[0] for c in calls]
                     perm = expected
-                    if akind == "shuffle_do":
+                    if shuffled:
                         if len(rec) == 1 and rec[0][0] == snap:
                             perm = rec[0][1]
                             if perm != expected:
-                                failures.append({"key": "C04/shuffle_do/order", "op": opi,
-                                                 "what": f"shuffle_do shuffled the members {snap} into {perm}; shuffle() from the same generator state gives {expected}"})
+                                failures.append({"key": f"C04/{akind}/order", "op": opi,
+                                                 "what": f"{akind} shuffled the members {snap} into {perm}; shuffle() from the same generator state gives {expected}"})
                         else:
-                            failures.append({"key": "C04/shuffle_do/order", "op": opi,
-                                             "what": f"shuffle_do did not shuffle one private list of its {len(snap)} members exactly once (recorded shuffles: {rec}); shuffle() from the same generator state gives {expected}"})
+                            failures.append({"key": f"C04/{akind}/order", "op": opi,
+                                             "what": f"{akind} did not shuffle one private list of its {len(snap)} members exactly once (recorded shuffles: {rec}); shuffle() from the same generator state gives {expected}"})
                     elif rec:
                         failures.append({"key": f"C04/{akind}/order", "op": opi,
                                          "what": f"{akind} consumed the generator (shuffles recorded: {rec}); it has to visit in set order {snap}"})
-                    _check_activation(run, akind, snap, expected, ev0, calls, failures, opi)
+                    _check_activation(run, akind, snap, expected, ev0, calls, failures, opi, raised=raised)
+                    if not raised and (_script_raises(script, log) or -35 in run.nlog and _script_raises(script2, [u for u in run.nlog if u > 0])):
+                        failures.append({"key": f"C04/{akind}/exception-swallowed", "op": opi,
+                                         "what": f"a callback raised during {akind} but the call returned normally; calls: {log}"})
                     bad = _args_ok(calls, args, kw, token)
                     if bad:
                         failures.append({"key": f"C04/{akind}/args", "op": opi,
                                          "what": f"{akind}(..., *{args}, **{kw}) called agent {bad[0]} with args {bad[1]} kwargs {sorted(bad[2])}"})
-                    if akind == "map":
+                    if raised:
+                        ret = [-37]
+                    elif akind == "map":
                         want = [2 * u + 1 for u in log]
                         if not isinstance(res, list) or res != want:
                             failures.append({"key": "C04/map/results", "op": opi,
                                              "what": f"map returned {res!r}; the callable returned {want} in call order"})
                         ret = [-31] + ([int(x) for x in res] if isinstance(res, list) and all(isinstance(x, int) for x in res) else [-99])
                     else:
-                        if res is not s:
-                            failures.append({"key": f"C04/{akind}/return", "op": opi, "what": f"{akind} returned {res!r}, not the set itself"})
-                        ret = [-32] if res is s else [-99]
+                        same = res is s if akind != "shuffle_then_do" else (res is not None and res is not s and type(res) is type(s))
+                        if not same:
+                            failures.append({"key": f"C04/{akind}/return", "op": opi, "what": f"{akind} returned {res!r}, not the set it was called on"})
+                        ret = [-32] if same else [-99]
                     del res
                     after = run.ids(s)
                     aset = set(after)
@@ -523,16 +726,17 @@ def _run_impl(env, case):
                     o = [-30]
                     for c in calls:
                         o += [c[0]] + [int(x) for x in c[2]] + [int(c[3][n]) for n in sorted(c[3]) if n != "tok" and isinstance(c[3][n], int)]
-                    obs.append(o + ret + run.view())
-                    mop = ["activate", akind, form, sref, script, full, [], perm]
+                    obs.append(o + ret + [-38] + run.nlog + run.view())
+                    mop = ["activate", akind, form, sref, _model_script(script, run.nested_perms), full, [], script2, perm]
             elif kind == "group":
-                _, akind, outer, byform, sref, m, script, args, kwargs = op
+                _, akind, outer, byform, sref, m, script, args, kwargs, script2 = op[:10]
                 s = run.resolve(sref)
-                if s is None or m not in (1, 2, 3):
+                if s is None or m not in (1, 2, 3) or akind not in KINDS:
                     obs.append([-2])
                 else:
                     snap = run.ids(s)
                     run.script = {int(i): acts for i, acts in script}
+                    run.script2 = {int(i): acts for i, acts in script2}
                     run.calls = []
                     ev0 = len(run.events)
                     token = object()
@@ -553,35 +757,46 @@ def _run_impl(env, case):
                         failures.append({"key": "C04/groupby/groups", "op": opi,
                                          "what": f"groupby on members {snap} by id mod {m} gave {got_groups}; required (first-seen key order, set order inside) {want_groups}"})
                     rec = ctx["rec"] = []
-                    if outer.endswith("-callable"):
-                        inner = (lambda agent, *a, **k: run.call(agent, a, k))
-                        res = getattr(gb, outer[:-9])(lambda grp, *a, **k: getattr(grp, akind)(inner, *a, **k), *args, tok=token, **kw)
-                    else:
-                        res = getattr(gb, outer)(akind, "act", *args, tok=token, **kw)
+                    raised = False
+                    res = None
+                    try:
+                        if outer.endswith("-callable"):
+                            inner = (lambda agent, *a, **k: run.call(agent, a, k))
+                            res = getattr(gb, outer[:-9])(lambda grp, *a, **k: getattr(grp, akind)(inner, *a, **k), *args, tok=token, **kw)
+                        else:
+                            res = getattr(gb, outer)(akind, "act", *args, tok=token, **kw)
+                    except _Boom:
+                        raised = True
                     outer = outer.split("-")[0]
                     ctx["rec"] = None
                     calls = run.calls
                     run.script = {}
+                    run.script2 = {}
                     log = [c[0] for c in calls]
                     site = f"groupby-{akind}"
                     perms = []
+                    nvis = len(want_groups)
+                    if raised and log:
+                        nvis = 1 + [k for k, _ in want_groups].index(log[-1] % m) if (log[-1] % m) in [k for k, _ in want_groups] else nvis
                     if akind == "shuffle_do":
-                        # one recorded shuffle per group, in group order
-                        ok = len(rec) == len(want_groups) and all(sorted(b) == sorted(x for x in g if x in set(b)) and set(b) <= set(g)
-                                                                  for (b, _), (_, g) in zip(rec, want_groups))
+                        # one recorded shuffle per visited group, in group order
+                        ok = len(rec) == nvis and all(set(b) <= set(g) and len(set(b)) == len(b) for (b, _), (_, g) in zip(rec, want_groups))
                         if ok:
                             perms = [a for _, a in rec]
-                            expected = [x for p in perms for x in p]
-                            _check_activation(run, site, snap, expected, ev0, calls, failures, opi)
+                            expected = [x for p in perms for x in p] + [x for _, g in want_groups[nvis:] for x in g]
+                            _check_activation(run, site, snap, expected, ev0, calls, failures, opi, raised=raised)
                         else:
                             failures.append({"key": f"C04/{site}/order", "op": opi,
                                              "what": f"GroupBy.{outer}('shuffle_do') over groups {want_groups} recorded the shuffles {rec}: not one shuffle of each group's live members, in group order"})
-                            _check_activation(run, site, snap, snap, ev0, calls, failures, opi, ordered=False)
+                            _check_activation(run, site, snap, snap, ev0, calls, failures, opi, ordered=False, raised=raised)
                     else:
                         expected = [x for _, g in want_groups for x in g]
                         if rec:
                             failures.append({"key": f"C04/{site}/order", "op": opi, "what": f"{site} consumed the generator: {rec}"})
-                        _check_activation(run, site, snap, expected, ev0, calls, failures, opi)
+                        _check_activation(run, site, snap, expected, ev0, calls, failures, opi, raised=raised)
+                    if not raised and _script_raises(script, log):
+                        failures.append({"key": f"C04/{site}/exception-swallowed", "op": opi,
+                                         "what": f"a callback raised during GroupBy.{outer}({akind!r}) but the call returned normally; calls: {log}"})
                     bad = _args_ok(calls, args, kw, token)
                     if bad:
                         failures.append({"key": f"C04/{site}/args", "op": opi,
@@ -590,7 +805,9 @@ def _run_impl(env, case):
                     per_group = {k: [] for k, _ in want_groups}
                     for u in log:
                         per_group.setdefault(u % m, []).append(u)
-                    if outer == "do":
+                    if raised:
+                        pass
+                    elif outer == "do":
                         if res is not gb:
                             failures.append({"key": "C04/groupby-do/return", "op": opi, "what": f"GroupBy.do returned {res!r}, not the GroupBy itself"})
                     else:
@@ -607,21 +824,23 @@ def _run_impl(env, case):
                     del res, gb
                     full = list(args) + list(kwargs)
                     o = []
-                    for k in keys:
+                    for k in keys[:nvis]:
                         o += [-34, k]
                         for u in per_group.get(k, []):
                             o += [u] + full
-                        o += ([-31] + [2 * u + 1 for u in per_group.get(k, [])]) if akind == "map" else [-32]
-                    # calls that belong to no group of the snapshot would be invisible above: flag them in the observation
-                    if any((u % m) not in keys for u in log):
+                    # calls that belong to no visited group would be invisible above: flag them in the observation
+                    if any((u % m) not in keys[:nvis] for u in log):
                         o += [-99]
-                    obs.append(o + run.view())
-                    mop = ["group", akind, outer, byform, sref, m, script, full, [], perms]
+                    obs.append(o + ([-37] if raised else [-32]) + [-38] + run.nlog + run.view())
+                    mop = ["group", akind, outer, byform, sref, m, _model_script(script, run.nested_perms), full, [], script2, perms]
             else:
                 raise ValueError(kind)
+            failures += run.by_type_failures(opi)
         except Exception as e:  # noqa: BLE001
             ctx["rec"] = None
             run.script = {}
+            run.script2 = {}
+            run.depth = 0
             obs.append([-1, 99])
             site = op[1] if kind in ("activate", "group") else kind
             failures.append({"key": f"C04/{site}/unexpected-exception", "op": opi,
@@ -648,6 +867,12 @@ def _act(a):
         return f"DropRef {L.z(a[1])}"
     if k == "add":
         return f"AddRef {L.z(a[1])}"
+    if k == "raise":
+        return "Raise"
+    if k == "nested":
+        if a[1] not in KINDS:
+            return "Nop"
+        return f"Nested {_K[a[1]]} {_sref(a[2])} {L.zlist(a[3] if len(a) > 3 else [])}"
     raise ValueError(k)
 
 
@@ -674,21 +899,30 @@ def coq_case(case):
     ops = case.get("_ops_for_model") or case["ops"]
     out = []
     for op in ops:
+        op = _norm(op)
         k = op[0]
         if k == "act":
-            out.append(f"OAct ({_act(op[1])})")
+            a = op[1]
+            out.append(f"OAct ({_act(a) if a[0] not in ('raise', 'nested') else 'Nop'})")
         elif k == "newset":
             out.append(f"ONewSet {L.zlist(op[1])}")
         elif k == "collect":
             out.append("OCollect")
         elif k == "activate":
-            _, akind, form, sref, script, args, kwargs = op[:7]
-            perm = op[7] if len(op) > 7 else []
-            out.append(f"OActivate {_K[akind]} {_sref(sref)} {L.zlist(perm)} {_script(script)} {L.zlist(list(args) + list(kwargs))}")
+            _, akind, form, sref, script, args, kwargs, script2 = op[:8]
+            perm = op[8] if len(op) > 8 else []
+            tail = f"{_sref(sref)} {L.zlist(perm)} {_script(script)} {_script(script2)} {L.zlist(list(args) + list(kwargs))}"
+            if akind == "shuffle_then_do":
+                out.append(f"OShuffleThenDo {tail}")
+            elif akind in _K:
+                out.append(f"OActivate {_K[akind]} {tail}")
+            else:
+                out.append("OActivate KDo (SUser (-1)) [] [] [] []")
         elif k == "group":
-            _, akind, outer, byform, sref, m, script, args, kwargs = op[:9]
-            perms = op[9] if len(op) > 9 else []
-            out.append(f"OGroup {_K[akind]} {_sref(sref)} {L.z(m if m in (1, 2, 3) else 0)} {L.lst([L.zlist(p) for p in perms])} {_script(script)} {L.zlist(list(args) + list(kwargs))}")
+            _, akind, outer, byform, sref, m, script, args, kwargs, script2 = op[:10]
+            perms = op[10] if len(op) > 10 else []
+            ok = m in (1, 2, 3) and akind in _K
+            out.append(f"OGroup {_K.get(akind, 'KDo')} {_sref(sref)} {L.z(m if ok else 0)} {L.lst([L.zlist(p) for p in perms])} {_script(script)} {_script(script2)} {L.zlist(list(args) + list(kwargs))}")
         else:
             raise ValueError(k)
     return L.lst(out)
@@ -699,8 +933,12 @@ def op_kinds(case):
     for op in case["ops"]:
         if op[0] == "activate":
             out.append(f"{op[1]}/{op[2]}/{op[3][0]}")
+            for _, acts in op[4]:
+                out += [f"callback:{a[0]}" for a in acts if a[0] in ("raise", "nested")]
         elif op[0] == "group":
             out.append(f"groupby.{op[2]}({op[1]})/{op[3]}")
+            for _, acts in op[6]:
+                out += [f"callback:{a[0]}" for a in acts if a[0] in ("raise", "nested")]
         elif op[0] == "act":
             out.append("program:" + op[1][0])
         else:
@@ -714,7 +952,7 @@ def nontrivial(case):
             # at least two calls
             if op[0] == "activate":
                 width = 1 + len(op[5]) + len(op[6])
-                end = next(i for i, v in enumerate(o) if v in (-31, -32))
+                end = next(i for i, v in enumerate(o) if v in (-31, -32, -37))
                 if (end - 1) // width >= 2:
                     return True
             else:
@@ -728,7 +966,9 @@ LEVEL_TEXT = ("Machine-checked Coq theorems over a Gallina transcription of Agen
               "outcomes, one activation calls no agent twice, calls only members of the snapshot, in set order (in the shuffled "
               "order for shuffle_do), calls exactly those alive at their turn - in particular every member still registered at "
               "its turn, and never one that is dead - never calls an agent created during the call, and leaves the relative "
-              "order of the set untouched.  The model is tied to the code by differential evaluation on all one-act scripts over "
+              "order of the set untouched; agents_by_type[c] is the registry filtered by exact class in every reachable state; "
+              "shuffle_do equals shuffle() followed by do() on the same outcome; a raising callback ends the loop at once "
+              "(log = prefix + raiser); nested activations keep every invariant.  The model is tied to the code by differential evaluation on all one-act scripts over "
               "small sets and on random churn histories (T2); an independent oracle states the property on the implementation.")
 LEVEL_NOTE = ("Theorems are about the model; CPython's refcounting/weakref semantics are modelled, not verified; 'shuffle_do visits "
               "in the order shuffle() would produce' is checked implementation-against-implementation. No axioms.")
